@@ -178,7 +178,15 @@ def run(ctx):
     dist["dec_roundtrip"] = n_rt; dist["dec_mutated"] = n_mut; dist["dec_exhaustive_upto_len"] = maxlen
     dist["dec_exhaustive_cases"] = n_exh; dist["dec_corpus"] = len(CORPUS_DEC)
     for prof in profiles:
+        # the model (unary numbers, ~2 ms per case) sees every case except the expensive ones and, of the 16.7 M
+        # three-byte strings of the thorough tier, every 6th (the implementation sees all of them, with the
+        # totality/bound monitors of check_dec_results; the theorem C14_decode_total covers all strings anyway)
+        first3 = len(dec_ops) - 256 ** 3 if maxlen >= 3 else len(dec_ops)
+        counter = [0]      # correspond() asks the filter once per op, in order
         def small(op, line):
+            i = counter[0]; counter[0] += 1
+            if i >= first3 and (i - first3) % 6 != 0:
+                return False
             m = PEAK.search(line)
             return (not m) or int(m.group(1)) <= 200000
         impl, model = ctx.correspond("codec", dec_ops, prof, canon=strip, label="decode", model_filter=small)
@@ -236,8 +244,11 @@ def replay(ctx, path):
         rp = h["replay"]
         res = ctx.run_impl("codec", [rp["op"]], rp.get("profile", "debug"))
         print("replay", rp["op"][:120], "->", [r[:120] for r in res])
+        m = PEAK.search(res[0]) if res else None
         if res and (res[0].startswith(("panic", "crash")) ):
             bad += 1
+        elif m and int(m.group(1)) > alloc_limit(ctx):
+            print("  allocates %s bytes (> %d)" % (m.group(1), alloc_limit(ctx))); bad += 1
         elif res and rp["op"].startswith("enc ") and strip(res[0]).startswith("ok "):
             t = rp["op"].split()
             r2 = ctx.run_impl("codec", ["dec %s %s" % (t[1], strip(res[0])[3:])], rp.get("profile", "debug"))
@@ -245,5 +256,5 @@ def replay(ctx, path):
             if not r2 or strip(r2[0]) != want:
                 print("  round trip fails: decode ->", (r2[0][:120] if r2 else None)); bad += 1
     if bad:
-        print("VIOLATION property=C14 replay=%s" % path)
+        print("VIOLATION property=%s replay=%s" % (ctx.pid, path))
     return 1 if bad else 0
